@@ -652,6 +652,10 @@ func Worker(args []string) {
 	}
 	scratch := world.ScratchRoot()
 	w := &wk{seed: seed, dir: filepath.Join(scratch, "w")}
+	// the scratch directory is named after the pid: drop whatever a dead process of the same pid left
+	for _, stale := range []string{w.dir, w.dir + ".tmpl", w.dir + ".tmpl.json"} {
+		os.RemoveAll(stale)
+	}
 	debug.SetGCPercent(800)                           // go-git allocates heavily per object read; the heap stays small anyway
 	if pf := os.Getenv("VERIF_C03B_PROF"); pf != "" { // development aid: CPU profile of one worker
 		if f, err := os.Create(pf); err == nil {
